@@ -273,6 +273,8 @@ def make_numpy(it):
 
     def _alloc(it, n, val):
         """np.zeros(len(x)) etc: the length must be the symbolic length of a known space"""
+        if isinstance(n, tuple) and len(n) == 1:
+            n = n[0]
         if isinstance(n, SV) and z3.is_const(n.z) and n.z.decl().name().startswith("n@"):
             return Arr(Space.get(n.z.decl().name()[2:]), val, True)
         if isinstance(n, int):
@@ -652,6 +654,13 @@ def arr_attr(it, a, name):
         return DType(a.e)
     if name == "T":
         return a
+    if name == "equals":
+        def equals(it, other):
+            o = other.arr() if hasattr(other, "arr") else other
+            if isinstance(o, Arr) and o.space is a.space and is_sym(a.e) and is_sym(o.e) and z3.eq(to_z(a.e), to_z(o.e)):
+                return True
+            return SV(z3.Bool(f"equals[{a.space.name},{_expr_key(a.e) if isinstance(a.e, SV) else '?'}]"))
+        return nat(equals)
     if name == "fillna":
         return nat(lambda it, v, **k: elementwise(it, lambda x, y: s_nan_to_num(it, x, y), a, v))
     if name == "isin":
